@@ -20,17 +20,17 @@ class C04(T.SeqCases, S.SchedCheck):
                   "any two regroupings of the same flat program agree.  The unguarded statement is FALSE on the model: flatten_transparent_fails_at_asap_then_positive (decided "
                   "witness of pre-finding F46), replayed on the real code in corpus(); recorded as known finding C04-K1.  flatten_transparent_hetero_partial extends the theorem to forests with KEPT DoDoers whose tock is 0 (always) or the scheduler's tock, "
                   "transparent groups beside/inside/around them; for a kept DoDoer with another tock the statement is false: transparent_under_lagging_dodoer_fails (decided; known finding C04-K2).")
-    level_note = "PARTIAL under G04.  The oracle compares two runs of the real code; the model is used only by the correspondence."
+    level_note = "PARTIAL under G04; the theorems are for fault-free programs: single-fault programs (failing doer's group last at every level) are covered by oracle + correspondence only.  The oracle compares two runs of the real code; the model is used only by the correspondence."
     trusted_base = S.SchedCheck.trusted_base + [
         "oracle harness/areas/schedt.py: run_program on the nested program and on flatten_specs(program); leaf_view / c04_clauses compare them"]
-    assumptions = ["programs are op-free and fault-free (with faults the nested exit order is children-before-parent by design)",
+    assumptions = ["programs are op-free; fault-free, or with ONE raise/KeyboardInterrupt at a step of a leaf whose transparent group comes last at every level (elsewhere the nested exit order is children-before-parent by design and differs from the flat one)",
                    "IEEE-754 doubles satisfy LawfulTyme on the values used (no Lean instance)"]
     rule = ("random op-free fault-free forests (leaves, optionally DoDoers with tock > 0) + random regroupings of consecutive siblings under DoDoer(tock=0): every level, nested (depth <= 4), "
             "empty groups, groups at every position; scripts positive* asap* / asap-then-positive / mixed; limits incl. non-multiples; starts != 0; non-dyadic tocks.  "
-            "30% of the cases are SECOND runs (the same nested / flat doer objects first run under another Doist with another start tyme, cut by a limit, then under a fresh Doist).  thorough: every single and double regrouping of 4 fixed 3..4-leaf programs.  non-trivial = the nested program has a transparent group holding >= 1 live leaf and >= 8 recur events; distinct by request line")
+            "2 in 9 programs carry one fault (raise / KeyboardInterrupt at a step, mid cycle, live siblings before and after it in its group, the group last at every level): forced-exit order nested vs flat; ~40% of the cases reach the same program through a history or another entry point (schedt.run_var: seq, same Doist twice, faulted first run, pre-wound, ints, iterator, doers at init, __call__, hand-driven enter/recur/exit, DoDoer opts); formerly: 30% of the cases are SECOND runs (the same nested / flat doer objects first run under another Doist with another start tyme, cut by a limit, then under a fresh Doist).  thorough: every single and double regrouping of 4 fixed 3..4-leaf programs.  non-trivial = the nested program has a transparent group holding >= 1 live leaf and >= 8 recur events; distinct by request line")
 
     def corpus(self):
-        return list(T.TIMING_CORPUS) + self.seq_corpus(T.TIMING_CORPUS)
+        return list(T.TIMING_CORPUS) + list(T.FAULT_CORPUS) + list(T.DEGENERATE_CORPUS) + self.seq_corpus(T.TIMING_CORPUS)
 
     def exhaustive(self, tier):
         if tier != "thorough":
@@ -51,7 +51,15 @@ class C04(T.SeqCases, S.SchedCheck):
         def plain():
             made = 0
             while made < n:
-                kind = rng.choice(["nested", "nested", "g04", "g04", "g04", "f46", "hetero"])
+                kind = rng.choice(["nested", "nested", "g04", "g04", "g04", "f46", "hetero", "fault", "fault"])
+                if rng.random() < 0.04:
+                    yield T.gen_degenerate(rng)
+                    made += 1
+                    continue
+                if kind == "fault":
+                    yield T.gen_faulted(rng)
+                    made += 1
+                    continue
                 c = T.gen_timed(rng, kind)
                 yield c
                 made += 1
@@ -66,9 +74,10 @@ class C04(T.SeqCases, S.SchedCheck):
 
     def run_impl(self, case):
         T.settle_heap()
-        if case[0] == "seq":
-            # nested objects and flat objects each go through BOTH Doists; the second runs are compared
-            return T.PairObs(T.run_second(case[2], case[1]), T.run_second(T.flatten_case(case[2]), case[1]))
+        if case[0] in ("seq", "var"):
+            # nested objects and flat objects each go through the same history / entry point; those runs are compared
+            v = self.variant(case)
+            return T.PairObs(T.run_var(case[2], v), T.run_var(T.flatten_case(case[2]), v))
         a = S.run_program(case)
         b = S.run_program(T.flatten_case(case))
         return T.PairObs(a, b)
@@ -98,12 +107,19 @@ class C04(T.SeqCases, S.SchedCheck):
             f.append("stopped-by-limit")
         if T.g04_break_reached(case, obs.a, None):
             f.append("G04-broken-reached")
+        if not T.fault_free(case) and T.single_fault_last_path(case):
+            f.append("fault-in-last-group:" + obs.a["raised"])
+            live = [e[0] for e in obs.a["trace"] if e[1] == "cease"]
+            if len(live) >= 2:
+                f.append("fault-with>=2-survivors")
         return f
 
     def oracle(self, case, obs):
         case = self.base(case)
-        if not (T.op_free(case) and T.fault_free(case)):
+        if not T.op_free(case):
             return []
+        if not T.fault_free(case) and not T.single_fault_last_path(case):
+            return []          # with a fault elsewhere nested closes children before the parent's later siblings: differs by design
         vn, vf = self.views(case, obs)
         return T.c04_clauses(vn, vf)
 
